@@ -1129,3 +1129,34 @@ func ruleP7(c *Ctx, pkgs map[string]bool) {
 		R.Fail("P7", "pipeline-packages/split-users", "-", "no construct uses Split any more")
 	}
 }
+
+// ---------------------------------------------------------------- X4b
+
+func ruleX4b(c *Ctx) {
+	R := c.R
+	p := c.P
+	R.Rule("X4b", "erc.Collector.Add drops nothing but nil: every return before the store is guarded by the nil test alone (an error is never discarded because of what it is or wraps)", 1)
+	f := p.FuncNamed("erc.(*Collector).Add")
+	at := "erc.(*Collector).Add/only-nil-dropped"
+	if f == nil {
+		R.Fail("X4b", at, "-", "not found")
+		return
+	}
+	info := f.Info()
+	bad := ""
+	n := 0
+	walkNoLit(f.Body, func(x ast.Node) bool {
+		ifs, ok := x.(*ast.IfStmt)
+		if !ok || !containsReturn(ifs.Body) {
+			return true
+		}
+		n++
+		// the condition must be exactly `err == nil`
+		be, ok := ast.Unparen(ifs.Cond).(*ast.BinaryExpr)
+		if !ok || be.Op != token.EQL || !errNilCmp(info, be, token.EQL) {
+			bad = exprStr(ifs.Cond)
+		}
+		return true
+	})
+	R.Check(bad == "" && n >= 1, "X4b", at, p.Position(f.Pos()), "the only early return is `if err == nil`", "Collector.Add returns early under `"+bad+"`: a non-nil error (and everything joined with it) is dropped from the aggregate, so Wait/Resolve report nil or an incomplete error")
+}
